@@ -82,7 +82,7 @@ fn c06_h1_coverage() {
 	let s = setup();
 	let c = TileCoord3 { x: kani::any(), y: kani::any(), z: any_level() };
 	let adv = s.conv.get_parameters().bbox_pyramid.contains_coord(&c);
-	assert!(adv == expected(&s, &c).is_some(), "advertised coverage differs from {c in selection, pre-image in source}");
+	assert!(adv == expected(&s, &c).is_some(), "advertised coverage differs from the set of c with c in the selection and the pre-image in the source");
 	kani::cover!(adv && s.flip && s.swap && c.x != c.y);
 	kani::cover!(!adv && s.req_box.is_some() && c.z == s.level);
 	std::mem::forget(s);
